@@ -151,11 +151,25 @@ def c17_cases(tier, rng):
     inputs = inputs[:900 if tier == "quick" else 9000]
     rnd = random_inputs(rng, 500 if tier == "quick" else 6000, 4, 25, density=1.4)
     ks = [-3, -2, -1, 1, 2, 3, 4, 5, 6]
+    # "the same power of two" is ANY power of two: far-out scales push every length across whatever absolute constant the code
+    # might compare it with (an extent limit of 1e6, an epsilon of 1e-3, an iteration cap derived from a width ...)
+    far = [-30, -20, -12, 10, 14, 20, 30]
     gid = 0
     for (n, e), cb in rotate(inputs + rnd, combos, 1, rng):
         gid += 1
         c = apply(n, e, cb)
-        sel = ks if tier == "thorough" else rng.sample(ks, 3)
+        sel = (ks + far) if tier == "thorough" else rng.sample(ks, 3) + rng.sample(far, 1)
+        yield from group(gid, c, [dict(c, rel="scale", sc=k) for k in sel])
+    # large drawings at ordinary scales: node widths in the thousands, spacings to match
+    combos_h = grid(p1=K.P1S, p2=K.P2S, p4=["sink", "valign", "pack", "bk"], p5=["poly", "ortho", "straight"], size=["all", "fixed"],
+                    pat=["huge"], ns=[2048, 0, 100], ls=[64, 1000])
+    big = random_inputs(rng, 250 if tier == "quick" else 3000, 4, 12, density=1.4) + random_inputs(rng, 50 if tier == "quick" else 600, 20, 40, density=1.3)
+    for (n, e), cb in rotate(big, combos_h, 1, rng):
+        gid += 1
+        c = apply(n, e, cb)
+        if c.get("fixed"):
+            c["fixed"] = [8192, 64]
+        sel = ks if tier == "thorough" else [6] + rng.sample(ks[:-1], 2)
         yield from group(gid, c, [dict(c, rel="scale", sc=k) for k in sel])
 
 
